@@ -213,7 +213,12 @@ impl Sess {
                 if all_whole && o % 4 == 1 {
                     b = fsts.iter().collect();
                 } else if all_whole && o % 4 == 2 {
-                    b.extend(fsts.iter());
+                    // (extending a builder that already holds a stream keeps the order of addition)
+                    let first = if o % 8 == 2 { 1 } else { 0 };
+                    if first == 1 && !fsts.is_empty() {
+                        b.push(&fsts[0]);
+                    }
+                    b.extend(fsts.iter().skip(std::cmp::min(first, fsts.len())));
                 } else if all_whole && o % 4 == 3 && !fsts.is_empty() {
                     b = fsts[0].op();
                     for f in &fsts[1..] {
@@ -241,7 +246,11 @@ impl Sess {
                 if all_whole && o % 4 == 1 {
                     b = maps.iter().collect();
                 } else if all_whole && o % 4 == 2 {
-                    b.extend(maps.iter());
+                    let first = if o % 8 == 2 { 1 } else { 0 };
+                    if first == 1 && !maps.is_empty() {
+                        b.push(&maps[0]);
+                    }
+                    b.extend(maps.iter().skip(std::cmp::min(first, maps.len())));
                 } else if all_whole && o % 4 == 3 && !maps.is_empty() {
                     b = maps[0].op();
                     for m in &maps[1..] {
